@@ -5,6 +5,7 @@ package pledge
 import (
 	"context"
 	"sync"
+	"time"
 
 	"github.com/synnaxlabs/aspen/internal/node"
 	"github.com/synnaxlabs/x/address"
@@ -189,12 +190,27 @@ func VerifC11Propose() {
 
 type verifJurorTransport struct {
 	TransportClient
+	mu      sync.Mutex
 	answers map[address.Address]error
-	calls   int
+	hangs   map[address.Address]bool
+	// turn[addr] is closed when the juror before addr has answered, done[addr] when addr has: natively the
+	// jurors answer in the order the engine's synchronous errgroup model runs them, so that a counterexample
+	// schedule found by the solver is the schedule the replay takes.
+	turn, done map[address.Address]chan struct{}
+	calls      int
 }
 
-func (t *verifJurorTransport) Send(_ context.Context, addr address.Address, _ Request) (Response, error) {
+func (t *verifJurorTransport) Send(ctx context.Context, addr address.Address, _ Request) (Response, error) {
+	<-t.turn[addr]
+	defer close(t.done[addr])
+	t.mu.Lock()
 	t.calls++
+	hang := t.hangs[addr]
+	t.mu.Unlock()
+	if hang { // a juror that never answers: the request ends when its context does
+		<-ctx.Done()
+		return Response{}, ctx.Err()
+	}
 	return Response{}, t.answers[addr]
 }
 
@@ -203,21 +219,31 @@ func (t *verifJurorTransport) Send(_ context.Context, addr address.Address, _ Re
 func VerifC11Consult() {
 	n := verifLen("jurors", 1, verifParam("jurors", 3))
 	q := make(node.Group)
-	tr := &verifJurorTransport{answers: map[address.Address]error{}}
+	tr := &verifJurorTransport{
+		answers: map[address.Address]error{}, hangs: map[address.Address]bool{},
+		turn: map[address.Address]chan struct{}{}, done: map[address.Address]chan struct{}{},
+	}
 	allOK := true
+	prev := make(chan struct{})
+	close(prev)
 	for i := 1; i <= n; i++ {
 		addr := address.Address([]string{"", "a", "b", "c"}[i])
+		tr.turn[addr], tr.done[addr] = prev, make(chan struct{})
+		prev = tr.done[addr]
 		q[node.Key(i)] = node.Node{Key: node.Key(i), Address: addr}
-		switch verifUint8("answer") % 3 {
+		switch verifUint8("answer") % 4 {
 		case 1:
 			tr.answers[addr] = errProposalRejected
 			allOK = false
 		case 2:
 			tr.answers[addr] = errors.New("unreachable")
 			allOK = false
+		case 3:
+			tr.hangs[addr] = true // times out
+			allOK = false
 		}
 	}
-	r := &responsible{Config: Config{TransportClient: tr}}
+	r := &responsible{Config: Config{TransportClient: tr, RequestTimeout: 30 * time.Millisecond}}
 	err := r.consultQuorum(context.Background(), 9, q)
 	verifAssert("consult-nil-iff-all-approve", (err == nil) == allOK)
 	verifAssert("consult-asked-every-juror", tr.calls == n)
